@@ -154,5 +154,16 @@ impl Leaf for Pl {
     fn ident(&self) -> u32 { self.0 }
 }
 
+/// plain data with a user-written `Clone` (the clone fuse applies) but no destructor and not `Copy`:
+/// a struct made of these has no drop glue at all (`needs_drop == false`)
+#[derive(Debug, PartialEq, Eq, PartialOrd, Ord, Hash)]
+pub struct Pc(pub u32);
+impl Clone for Pc { fn clone(&self) -> Self { clone_tick(); Pc(self.0) } }
+impl Leaf for Pc {
+    const KIND: char = 'p';
+    fn make(id: u32) -> Self { Pc(id) }
+    fn ident(&self) -> u32 { self.0 }
+}
+
 /// struct-level destructor event (logged by the `Drop` impl of a shape struct)
 pub fn struct_dropped(first_leaf_id: u32) { ev(format!("T{}", first_leaf_id)); }
